@@ -48,7 +48,14 @@ def specs(draw, tier):
             modes[0] = 1
         spec["modes"] = modes
         spec["phase"] = gen.r6(draw(st.floats(0, 6.28, **finite)))
+    # lower corner of the box in units of its edge lengths (the grid need not start at the origin), alternative spellings
+    # of the method names, and the additional output
+    spec["origin_f"] = [draw(st.sampled_from([0.0, 0.0, -0.5, 1.0, -3.25, 7.5])) for _ in range(dim)]
+    spec["alias"] = draw(st.booleans())
+    spec["full_output"] = draw(st.booleans())
     if method == "droplets":
+        # droplet counting does not need a fully periodic box: translations are then taken along the periodic axes only
+        spec["periodic"] = [True] * dim if draw(st.integers(0, 2)) else [draw(st.booleans()) for _ in range(dim)]
         spec["n"] = draw(st.integers(1, 6))
         spec["threshold"] = draw(st.sampled_from(["auto", "auto", "extrema", "mean", "otsu"]))
         spec["shapes"] = draw(st.sampled_from(["round", "bars"])) if dim >= 2 else "round"
@@ -57,10 +64,11 @@ def specs(draw, tier):
     return spec
 
 
-def make_grid(shape, spacing):
+def make_grid(shape, spacing, origin_f=None, periodic=True):
     from pde import CartesianGrid
 
-    return CartesianGrid([(0.0, n * d) for n, d in zip(shape, spacing)], list(shape), periodic=True)
+    of = origin_f or [0.0] * len(shape)
+    return CartesianGrid([(f * n * d, f * n * d + n * d) for n, d, f in zip(shape, spacing, of)], list(shape), periodic=periodic)
 
 
 class C17(Property):
@@ -93,16 +101,24 @@ class C17(Property):
 
         shape, spacing = spec["shape"], spec["spacing"]
         dim = len(shape)
-        grid = make_grid(shape, spacing)
+        of = spec.get("origin_f") or [0.0] * dim
+        per = [bool(p) for p in spec.get("periodic", [True] * dim)]
+        grid = make_grid(shape, spacing, of, per)
         s = spec["stretch"]
-        grid_s = make_grid(shape, [d * s for d in spacing])
+        grid_s = make_grid(shape, [d * s for d in spacing], of, per)
+        shift = [k if p else 0 for k, p in zip(spec["shift"], per)]
+        alias, full = bool(spec.get("alias")), bool(spec.get("full_output"))
+        if any(of):
+            ctx.cls("origin!=0")
+        if not all(per):
+            ctx.cls("mixed-periodicity")
         rng = np.random.default_rng(spec["seed"])
         method = spec["method"]
         L = np.array(shape) * np.array(spacing)
         dk = 2 * math.pi / float(L.max())
         ctx.cls(method, f"dim{dim}", "spacing=1" if spacing[0] == 1.0 else ("spacing<0.3" if spacing[0] < 0.3 else ("spacing>0.5" if spacing[0] > 0.5 else "spacing-like-tests")))
         used_by_tests = all(0.3 <= d <= 0.5 or d == 1 / 32 for d in spacing)
-        nontriv_t = any(spec["shift"]) or s != 1.0
+        nontriv_t = any(shift) or s != 1.0
         ctx.nontrivial = (not used_by_tests) and nontriv_t
         idx = np.meshgrid(*[np.arange(n) for n in shape], indexing="ij")
         # an earlier analysis on a sibling grid (same shape, other aspect ratio / spacing) must leave no trace
@@ -123,25 +139,39 @@ class C17(Property):
                 ctx.skip("constant")
                 return
             l0 = get_length_scale(ScalarField(grid, data), "structure_factor_mean")
-            ctx.require(math.isfinite(l0) and l0 > 0, "mean:not-finite", f"length scale {l0}")
+            if not ctx.require(isinstance(l0, (float, np.floating)) and math.isfinite(l0) and l0 > 0, "mean:not-finite", f"length scale {l0!r}"):
+                return
+            if alias:
+                # the documented alternative spelling of the method is the same analysis
+                la = get_length_scale(ScalarField(grid, data), "structure_factor_average")
+                ctx.require(isinstance(la, (float, np.floating)) and la == l0, "mean:alias", f"'structure_factor_average' gives {la!r}, 'structure_factor_mean' {l0!r}")
+            if full:
+                # the additional output does not change the length scale and is the structure factor itself
+                res = get_length_scale(ScalarField(grid, data), "structure_factor_mean", full_output=True)
+                if ctx.require(isinstance(res, tuple) and len(res) == 2, "mean:full-output", f"full_output returns {type(res).__name__}"):
+                    _, S_ref = get_structure_factor(ScalarField(grid, data))
+                    ctx.require(res[0] == l0 and np.shape(res[1]) == np.shape(S_ref) and np.array_equal(res[1], S_ref), "mean:full-output", f"full_output gives l = {res[0]!r} (plain call {l0!r}) and a structure factor of shape {np.shape(res[1])}")
             l1 = get_length_scale(ScalarField(grid_s, data), "structure_factor_mean")
             ctx.require(rel_ok(l1, s * l0, 1e-9), "mean:stretch", f"l(stretch {s}) = {l1}, expected {s} x {l0} = {s * l0}")
             l2 = get_length_scale(ScalarField(grid, spec["scale"] * data), "structure_factor_mean")
             ctx.require(rel_ok(l2, l0, 1e-9), "mean:scale", f"l({spec['scale']} f) = {l2} != {l0}")
-            l3 = get_length_scale(ScalarField(grid, np.roll(data, spec["shift"], tuple(range(dim)))), "structure_factor_mean")
+            l3 = get_length_scale(ScalarField(grid, np.roll(data, shift, tuple(range(dim)))), "structure_factor_mean")
             ctx.require(rel_ok(l3, l0, 1e-9), "mean:shift", f"l(roll f) = {l3} != {l0}")
             return
 
         if method == "droplets":
             from droplets import DiffuseDroplet, Emulsion
 
-            geom = O.CartGeom([0.0] * dim, shape, spacing, [True] * dim)
+            org = np.array(of) * L
+            geom = O.CartGeom(org, shape, spacing, per)
             drops = []
             rmax = float(L.min()) / 4
             for _ in range(spec["n"]):
                 r = rng.uniform(1.5 * max(spacing), max(1.6 * max(spacing), rmax))
-                p = rng.uniform(0, 1, dim) * L
-                if all(geom.dist(p, q) > r + rq + 3 * float(np.linalg.norm(spacing)) for q, rq in drops) and 2 * r + 3 * max(spacing) < L.min():
+                p = org + rng.uniform(0, 1, dim) * L
+                # droplets keep clear of the non-periodic walls, so that a translation along the periodic axes moves them rigidly
+                clear = all(pa or (o + r + 2 * dx <= x <= o + l - r - 2 * dx) for pa, x, o, l, dx in zip(per, p, org, L, spacing))
+                if clear and all(geom.dist(p, q) > r + rq + 3 * float(np.linalg.norm(spacing)) for q, rq in drops) and 2 * r + 3 * max(spacing) < L.min():
                     drops.append((p, r))
             if not drops:
                 ctx.skip("no-room")
@@ -153,19 +183,24 @@ class C17(Property):
                 # elongated, non-round clusters: their equal-volume spheres may overlap although the clusters do not touch, so
                 # the locator's overlap filter (which must use the periodic metric) decides the count
                 mask = np.zeros(shape, bool)
+
+                def rng_cells(a, e, n, periodic_axis):
+                    c = np.arange(a, a + e)
+                    return c % n if periodic_axis else c[c < n]
+
                 for _ in range(1 + spec["n"] // 2):
                     ext = [int(rng.integers(1, max(2, n // 2))) for n in shape]
                     thin = int(rng.integers(0, dim))
                     ext[thin] = 1 + int(rng.integers(0, 2))
                     lo = [int(rng.integers(0, n)) for n in shape]
-                    mask[np.ix_(*[np.arange(a, a + e) % n for a, e, n in zip(lo, ext, shape)])] = True
+                    mask[np.ix_(*[rng_cells(a, e, n, pa) for a, e, n, pa in zip(lo, ext, shape, per)])] = True
                     if rng.random() < 0.7:  # a parallel, shorter partner one empty cell away: distinct clusters, overlapping spheres
                         lo2, ext2 = list(lo), list(ext)
                         lo2[thin] = lo[thin] + ext[thin] + 1
                         ext2[thin] = 1
                         long_ax = int(np.argmax(ext))
                         ext2[long_ax] = max(1, ext[long_ax] - 1 - int(rng.integers(0, 3)))
-                        mask[np.ix_(*[np.arange(a, a + e) % n for a, e, n in zip(lo2, ext2, shape)])] = True
+                        mask[np.ix_(*[rng_cells(a, e, n, pa) for a, e, n, pa in zip(lo2, ext2, shape, per)])] = True
                 data = spec["amp"] * (mask.astype(float) + spec["offset"])
                 ctx.cls("bars")
             kw = {"threshold": spec["threshold"]}
@@ -189,11 +224,11 @@ class C17(Property):
                 t_mask = mask  # two-valued image with positive amplitude: every rule separates the two levels
             elif spec["threshold"] in ("auto", "extrema"):
                 t_mask = data > (data.min() + data.max()) / 2
-            judge_shift = t_mask is not None and len(O.components(t_mask, [True] * dim)) == n
+            judge_shift = t_mask is not None and len(O.components(t_mask, per)) == n
             if t_mask is not None and not judge_shift and bars:
                 # the overlap filter removed something: the count is still translation invariant unless a decision of the greedy
                 # filter sits on a knife edge (tied volumes, a sphere distance equal to the sum of radii, a winding component)
-                comps = O.components(t_mask, [True] * dim)
+                comps = O.components(t_mask, per)
                 cv = float(np.prod(spacing))
                 info = []
                 clean = True
@@ -203,7 +238,7 @@ class C17(Property):
                         break
                     cells = np.array([np.array(i) + np.array(o) * np.array(shape) for i, o in c["cells"]], float)
                     V = len(cells) * cv
-                    info.append((V, (cells.mean(axis=0) + 0.5) * np.array(spacing), O.sphere_radius_from_volume(V, dim)))
+                    info.append((V, org + (cells.mean(axis=0) + 0.5) * np.array(spacing), O.sphere_radius_from_volume(V, dim)))
                 if clean:
                     vols = sorted(v for v, _, _ in info)
                     if any(b - a <= 1e-9 * b for a, b in zip(vols, vols[1:])):
@@ -217,8 +252,8 @@ class C17(Property):
                 if clean:
                     ctx.cls("shift-judged-with-overlap-filter")
             if judge_shift:
-                l3 = get_length_scale(ScalarField(grid, np.roll(data, spec["shift"], tuple(range(dim)))), "droplet_detection", **kw)
-                ctx.require(rel_ok(l3, l0, 1e-12), "droplets:shift", f"l(roll f by {spec['shift']}) = {l3} != {l0} (n = {n})")
+                l3 = get_length_scale(ScalarField(grid, np.roll(data, shift, tuple(range(dim)))), "droplet_detection", **kw)
+                ctx.require(rel_ok(l3, l0, 1e-12), "droplets:shift", f"l(roll f by {shift}) = {l3} != {l0} (n = {n})")
             else:
                 ctx.cls("shift-not-judged")
             return
@@ -229,7 +264,11 @@ class C17(Property):
             data = spec["amp"] * (np.cos(arg + spec["phase"]) + spec["offset"])
             k0 = 2 * math.pi * math.sqrt(sum((m / l) ** 2 for m, l in zip(modes, L)))
             field = ScalarField(grid, data)
-            l0 = get_length_scale(field, "structure_factor_maximum")
+            l0 = get_length_scale(field, "structure_factor_peak" if alias else "structure_factor_maximum")
+            if full:
+                res = get_length_scale(field, "structure_factor_maximum", full_output=True)
+                good = isinstance(res, tuple) and len(res) == 2 and callable(res[1]) and (res[0] == l0 or (res[0] != res[0] and l0 != l0))
+                ctx.require(good, "peak:full-output", f"full_output gives {res[0] if isinstance(res, tuple) else res!r}, the plain call {l0!r}")
             ok = math.isfinite(l0) and l0 > 0 and abs(2 * math.pi / l0 - k0) <= 0.5 * dk * (1 + 1e-9)
             if not ok:
                 # discriminate the recorded finding F10: does a covariant smoothing width repair this very call?
@@ -277,7 +316,7 @@ class C17(Property):
         ctx.require(math.isfinite(l1) and abs(2 * math.pi / l1 * s - k_0) <= dk, "peak-general:stretch", f"k(stretch {s}) x s = {2 * math.pi / l1 * s if l1 else None} vs {k_0} (bin {dk})")
         l2 = get_length_scale(ScalarField(grid, spec["scale"] * data), "structure_factor_maximum", smoothing=sm)
         ctx.require(math.isfinite(l2) and abs(2 * math.pi / l2 - k_0) <= dk, "peak-general:scale", f"k({spec['scale']} f) = {2 * math.pi / l2 if l2 else None} vs {k_0}")
-        l3 = get_length_scale(ScalarField(grid, np.roll(data, spec["shift"], tuple(range(dim)))), "structure_factor_maximum", smoothing=sm)
+        l3 = get_length_scale(ScalarField(grid, np.roll(data, shift, tuple(range(dim)))), "structure_factor_maximum", smoothing=sm)
         ctx.require(math.isfinite(l3) and abs(2 * math.pi / l3 - k_0) <= dk, "peak-general:shift", f"k(roll f) = {2 * math.pi / l3 if l3 else None} vs {k_0}")
 
 
